@@ -251,5 +251,6 @@ def main(chk):
         chk.sample({"program": progs[i], "expected_out": cases[i][1], "impl_out": res[i]["impl"].get("out"),
                     "model_verdict": res[i]["verdict"]})
     chk.cov["rule"] += " Added after seeded round 5: short-cut operators and conditionals with marker operands in every position (26 shapes), a call of an absent property (its arguments are evaluated first, an argument's error wins), embedded strs whose parts are one object with an impure S."
+    chk.cov["rule"] += " Added after seeded round 7: ranges over objects whose `<=>` / `_incBy` print, the operands of Iterable#chain."
     return pancore.conclude(chk, ok, broken, "Props/C08.v", res, viol, model_only, "C08",
                             "Core.Interp vs evaluator/*.go on marker programs")
